@@ -29,6 +29,7 @@ func c16(c *Ctx) {
 	c16R4(c)
 	c16R5(c)
 	c16R6(c)
+	c16R7(c)
 }
 
 func c16R1(c *Ctx) {
@@ -363,6 +364,60 @@ func c16R5(c *Ctx) {
 
 // c16R6: the position bookkeeping of the priority queue behind IncrementAccum's heap
 // (pq[k].index == k for every k; Heap.Update re-sifts the slot recorded in the item).
+// c16R7: the rotation count is replicated data, and the set owns its elements.
+func c16R7(c *Ctx) {
+	rule := c.R.Rule("R7", "rotation count and element ownership: State.ExecBlock rotates the next set by the constant 1 per height (never by a node-local quantity such as the commit round); enterNewRound rotates its private copy by round - cs.Round; Add/Update store a copy of the caller's Validator, never the caller's object", 4)
+	if f := c.Anchor(rule, "gemmill/state.(*State).ExecBlock"); f != nil {
+		for _, ci := range f.CallsTo(cfgx.Named(valsT + ".IncrementAccum")) {
+			c.R.Ob(rule, "ExecBlock:IncrementAccum(1)", callArg(ci, 1) == "1", c.Pos(ci), fname(f), "the per-height rotation must be the same on every replica, however it learnt the block (consensus round, fast sync, replay): got IncrementAccum("+shorten(callArg(ci, 1))+")")
+		}
+	}
+	if f := c.Anchor(rule, "gemmill/consensus/pbft.(*ConsensusState).enterNewRound"); f != nil {
+		for _, ci := range f.CallsTo(cfgx.Named(valsT + ".IncrementAccum")) {
+			c.R.Ob(rule, "enterNewRound:IncrementAccum(round-cs.Round)", callArg(ci, 1) == "(a2 - a0.RoundState.Round)", c.Pos(ci), fname(f), "got "+shorten(callArg(ci, 1)))
+		}
+	}
+	cp := "gemmill/types.(*Validator).Copy(a1)"
+	if f := c.Anchor(rule, valsT+".Update"); f != nil {
+		n := 0
+		for _, st := range f.Stores(func(a string) bool { return strings.HasPrefix(a, "a0.Validators[") }) {
+			n++
+			c.R.Ob(rule, "Update:stores-copy", exprOf(st.Val) == cp, c.Pos(st), fname(f), "the set must own its element: storing the caller's *Validator lets later mutations of that object (the admin plugin reuses it) change accum/power inside the set; stored "+shorten(exprOf(st.Val)))
+		}
+		if n == 0 {
+			c.R.Undecided(rule, "Update:element-store", c.P.Pos(f.F.Pos()), fname(f), "no element store")
+		}
+	}
+	if f := c.Anchor(rule, valsT+".Add"); f != nil {
+		n := 0
+		for _, b := range f.F.Blocks {
+			for _, ins := range b.Instrs {
+				st, ok := ins.(*ssa.Store)
+				if !ok || !f.Live(ins) {
+					continue
+				}
+				// stores of a *Validator into a slice element
+				if _, isIdx := st.Addr.(*ssa.IndexAddr); isIdx && strings.HasSuffix(st.Val.Type().String(), "types.Validator") {
+					n++
+					// Add re-binds its parameter (`val = val.Copy()`): a Copy() call must dominate the store and the
+					// stored value must not be the parameter itself
+					_, isParam := st.Val.(*ssa.Parameter)
+					copied := false
+					for _, ci := range f.CallsTo(cfgx.Named("gemmill/types.(*Validator).Copy")) {
+						if f.Dominates(ci.(ssa.Instruction), st) {
+							copied = true
+						}
+					}
+					c.R.Ob(rule, "Add:stores-copy", !isParam && (copied || exprOf(st.Val) == cp), c.Pos(st), fname(f), "stored "+shorten(exprOf(st.Val)))
+				}
+			}
+		}
+		if n == 0 {
+			c.R.Undecided(rule, "Add:element-store", c.P.Pos(f.F.Pos()), fname(f), "no element store")
+		}
+	}
+}
+
 func c16R6(c *Ctx) {
 	rule := c.R.Rule("R6", "heap position bookkeeping (IncrementAccum re-sifts the proposer through Heap.Update -> heap.Fix(pq, item.index)): priorityQueue.Push records the pushed item's slot (len before the append, or len-1 after it); Swap exchanges two slots and re-records both indices; Update fixes at the item's recorded index; Heap.Update updates the root item; Less delegates to the priorities' Less with the arguments in order", 7)
 	pk := "gemmill/modules/go-common."
